@@ -39,7 +39,7 @@ def dump_ciborium(repo):
         path = os.path.join(out, "ciborium.json")
         if r.returncode != 0 or not os.path.exists(path):
             raise FactsError("could not dump ciborium facts: %s" % r.stdout[-600:])
-        return Program(path, expect_nonce="audit", inline=False)   # a foreign crate: its private functions are named by the audit rules
+        return Program(path, expect_nonce="audit", inline=False, flatten=False)   # a foreign crate: its private functions are named by the audit rules
     finally:
         fcntl.flock(lock, fcntl.LOCK_UN)
         lock.close()
